@@ -23,6 +23,9 @@ SUFFIX_TABLE = {"": "production", ".n": "nightly", ".nightly": "nightly", ".t": 
 create_strategy = st.fixed_dictionaries({
     "release": gen.release_desc(), "layered": st.booleans(), "base_product": gen.release_desc(with_internal=False),
     "type": st.sampled_from(gen.COMPOSE_TYPES), "date": gen.date8, "respin": gen.respin,
+    # the usual "id taken - bump the respin and create again" loop, on the same object and on a loaded one
+    "next": st.lists(st.fixed_dictionaries({"type": st.one_of(st.none(), st.sampled_from(gen.COMPOSE_TYPES)), "date": st.one_of(st.none(), gen.date8),
+                                            "bump": st.integers(0, 3), "on_loaded": st.booleans()}), max_size=3),
 })
 
 
@@ -58,8 +61,19 @@ def create_case(case):
     must("loads-with-created-id", again.loads, text)
     check((again.compose.id, again.compose.date, again.compose.type, again.compose.respin) == (cid,) + want, "reload-differs",
           "compose section after reload: %r" % ((again.compose.id, again.compose.date, again.compose.type, again.compose.respin),))
+    cur = {"date": case["date"], "type": case["type"], "respin": case["respin"]}
+    for step in case.get("next", []):
+        obj = again if step["on_loaded"] else ci
+        cur = {"date": step["date"] or cur["date"], "type": step["type"] or cur["type"], "respin": min(cur["respin"] + step["bump"], 10 ** 7 - 1)}
+        obj.compose.type, obj.compose.date, obj.compose.respin = cur["type"], cur["date"], cur["respin"]
+        nid = must("create-again", obj.create_compose_id)
+        check(isinstance(nid, str) and nid.startswith(prefix + "-"), "prefix", lambda: "id %r does not start with %r" % (nid, prefix + "-"))
+        got = must("decode", get_date_type_respin, nid)
+        check(got == (cur["date"], cur["type"], cur["respin"]), "decode-differs", lambda: "object already carrying id %r: create_compose_id() = %r decodes to %r, fields are %r" % (
+            obj.compose.id, nid, got, (cur["date"], cur["type"], cur["respin"])))
+        obj.compose.id = nid
     run = has_digit_run(rel["version"]) or has_digit_run(rel["short"]) or (case["layered"] and has_digit_run(case["base_product"]["version"]))
-    labels = [case["type"]] + (["layered"] if case["layered"] else []) + (["digit-run"] if run else [])
+    labels = [case["type"]] + (["layered"] if case["layered"] else []) + (["digit-run"] if run else []) + (["created-again"] if case.get("next") else [])
     return {"nontrivial": case["type"] != "production" or case["respin"] > 9 or run or case["layered"], "labels": labels}
 
 
